@@ -13,6 +13,7 @@ import traceback
 from multiprocessing import get_context
 
 ROOT = os.path.dirname(os.path.dirname(os.path.abspath(__file__)))
+OUT = os.environ.get('VERIF_OUT', ROOT)      # where evidence / replays go (runs against a scratch tree set it)
 _STATE = {}
 
 
@@ -113,7 +114,7 @@ def check_property(prop, tier, seed, spec):
     src, reg = _init()
     opts = {'timeout_ms': 20000 if tier == 'quick' else 120000, 'cvc5': True,
             'fn_budget_s': 420 if tier == 'quick' else 3000,
-            'dump_dir': os.path.join(ROOT, 'replays', prop, 'smt2')}
+            'dump_dir': os.path.join(OUT, 'replays', prop, 'smt2')}
     keys = [k for k in spec['functions'] if k in reg.contracts and not reg.contracts[k].trusted]
     if os.environ.get('VERIF_ONLY'):      # developer aid (not used by registered commands): restrict the cone
         keys = [k for k in keys if re.search(os.environ['VERIF_ONLY'], k)]
@@ -234,8 +235,8 @@ def check_property(prop, tier, seed, spec):
         'wall_s': round(wall, 2),
         'violations': len(vio_lines),
     }
-    os.makedirs(os.path.join(ROOT, 'evidence'), exist_ok=True)
-    with open(os.path.join(ROOT, 'evidence', f'{prop}.json'), 'w') as f:
+    os.makedirs(os.path.join(OUT, 'evidence'), exist_ok=True)
+    with open(os.path.join(OUT, 'evidence', f'{prop}.json'), 'w') as f:
         json.dump(ev, f, indent=1, default=str)
     # ---- verdict
     for line in kf_lines:
